@@ -10,6 +10,7 @@ import (
 	"github.com/philpearl/avro"
 	"pgregory.net/rapid"
 
+	"verifh/cat"
 	"verifh/gen"
 	"verifh/ref"
 	"verifh/spec"
@@ -219,11 +220,48 @@ func runC03(c wireCase) (bool, []string, error) {
 	return nt, labels, nil
 }
 
+// embedSchemaPool: fields a writer's schema may have next to (or instead of) the
+// record field of an embedded struct; "a" and "b" are the names of the embedded
+// struct's own fields, which are NOT fields of the outer record.
+func drawEmbedSchema(t *rapid.T) ref.Schema {
+	long, str := ref.Prim("long"), ref.Prim("string")
+	inner := ref.Schema{Kind: "record", Name: "Inner", Fields: []ref.Field{{Name: "a", Type: long}, {Name: "b", Type: ref.Nullable(str)}}}
+	pool := []ref.Field{
+		{Name: "x", Type: long}, {Name: "y", Type: str}, {Name: "a", Type: long}, {Name: "b", Type: ref.Nullable(str)},
+		{Name: "Inner", Type: inner}, {Name: "q", Type: ref.Prim("double")},
+	}
+	s := ref.Schema{Kind: "record", Name: "Outer"}
+	for _, f := range pool {
+		if gen.Uniform(t, "keepField", 4) != 0 {
+			s.Fields = append(s.Fields, f)
+		}
+	}
+	for i := len(s.Fields) - 1; i > 0; i-- {
+		j := gen.Uniform(t, "perm", i+1)
+		s.Fields[i], s.Fields[j] = s.Fields[j], s.Fields[i]
+	}
+	if rapid.Bool().Draw(t, "nullableInner") {
+		for i := range s.Fields {
+			if s.Fields[i].Name == "Inner" {
+				s.Fields[i].Type = ref.Nullable(inner)
+			}
+		}
+	}
+	return s
+}
+
 func drawWireCase(t *rapid.T, o *gen.WireOpts) wireCase {
 	var c wireCase
-	c.Schema = gen.WireRecord(t, o, 0)
-	tgt, _ := gen.Target(t, c.Schema, o, false)
-	c.Target = tgt.StripPtr()
+	if gen.Uniform(t, "embedArm", 15) == 0 {
+		// a named target type with an embedded struct (catalogue), against schemas
+		// that also carry fields named like the embedded struct's own fields
+		c.Target = cat.Get([]string{"EmbedMid", "EmbedPtr", "Embeds"}[gen.Uniform(t, "embedType", 3)]).Spec
+		c.Schema = drawEmbedSchema(t)
+	} else {
+		c.Schema = gen.WireRecord(t, o, 0)
+		tgt, _ := gen.Target(t, c.Schema, o, false)
+		c.Target = tgt.StripPtr()
+	}
 	c.GoType = c.Target.GoString()
 	n := gen.UniformRange(t, "ndatums", 0, 6)
 	for i := 0; i < n; i++ {
